@@ -31,6 +31,8 @@ DEFS = [
     ('basic::B3', '', range(0, 2), (0,), ['a?', 'aa?', 'ab?', 'aab?', 'x?', '"?', '"a?', '""?', 'a??', '"é?', '"a"?', 'ac?', 'abc?'], (0,)),
     ('basic::B4', '', range(0, 5), (0, 1), ['A?', 'AB?', '!?', '4?', 'c?', '!!?', 'AE??'], (0, 1)),
     ('basic::B5', '', range(0, 11), (0, 1), ['abcdefg?', 'abcdefgh?', 'abcdefghi?', 'abcdefghijklmnop?', 'abcdefghijklmno-?', '-abcdefgh?x'], (0, 1)),
+    ('basic::B6', '', range(0, 3), (0,), ["'?", "'?'", "'\\\\?", "'\\\\?'", "\\\\?", "'a?", "''?", "??"], (0,)),
+    ('basic::B7', '', range(0, 3), (0,), ['#?', '#abcdefghi?', '#abcdefghij?', '#abcdefghijk?', '#abcdefghijklmnop?', '#abcdefghijklmnopqr?', '#abcdefghijklmnopqrstuvwx?', 'ab#cdefghijkl?', '#abcdefghij\\n?', '?', '#??'], (0, 2)),
     ('basic::E1', '', range(0, 6), (0, 1), ['ab?', 'abc?', 'abcd?', 'x1?', 'x12?', 'x?', 'abcd??', 'x1y?'], (0, 1)),
     ('skip::S1', ' \t', range(0, 2), (0,), [' a?', 'ab ?', 'a?', 'a ?', ' ?', '  ?', 'a \t?', '1 ? ', ' =?', 'a??', ' ??', 'ab=?1', '\t? a'], (0, 1)),
     ('skip::S2', '\n-', range(0, 3), (0,), ['-?', '--?', '\n?', '---?', 'a-?', '--\n?', '-??', '->?'], (0, 1)),
@@ -40,14 +42,14 @@ DEFS = [
     ('callbacks::K2', 'pqrs', range(0, 2), (0,), ['p?', 'q?', 'r?', 's?', 'x?', 'pqa?', 'r0x?', 's0?', '?', 'a?', 'r1?', 'pr0qs0x?'], (0,)),
     ('literal::L1', '', range(0, 3), (0, 1), ['a?', 'a.?', 'a.b?', 'a.b*?', '[?', '[x?', '\\?', '$?', 'a|?', '+?', 'a??', '?0', 'ab?'], (0,)),
     ('literal::L2', '', range(0, 3), (0,), ['é?', 'é|?', 'é|€?', '.?', 'é??', '\\?'], (0,)),
-    ('literal::I1', 'zZ', range(0, 2), (0,), ['a?', 'A?', 'k?', 'K?', 'x?', 'X?', 'kß?', 'K?\u1e9e'[:2], 'z?', 'Za?', 'a.?', 'q?', '\u212a?', 'k??'], (0,)),
+    ('literal::I1', 'zZ', range(0, 2), (0,), ['a?', 'A?', 'k?', 'K?', 'x?', 'X?', 'kß?', 'K?\u1e9e'[:2], 'z?', 'Za?', 'a.?', 'q?', '\u212a?', 'k??', 'ks?', 'k\u017f?', '\u212as?', '\u212a\u017f?', 'K\u1e9e?', '\u212a\u00df?'], (0,)),
     ('literal::I2', '', range(0, 4), (0, 1), ['k?', 'K?', 'a?', 'y?', 'Z?', 'ab?'], (0,)),
     ('twins::P1', '', range(0, 2), (0,), ['1?', '12?', '1x?', 'a?', 'bc?', 'b?', 'y1?', 'y12?', 'q?', 'Q?', 'w?', 'w€?', 'we?', 'ad?', '??'], (0,)),
-    ('twins::P2', '', range(0, 3), (0,), ['x?', 'a?', 'a\u00e9?'[:0] + 'ab?', 'abc?', 'b!?', '??'], (0,)),
+    ('twins::P2', '', range(0, 3), (0,), ['x?', 'a?', 'ab?', 'abc?', 'b!?', '??', 'y?', 'y\u00e9?', 'z?', 'z\u00e9?', 'zb?'], (0,)),
     ('twins::O1', 'sS', range(0, 2), (0,), ['a?', 'ab?', 'A?', 'Ab?', 'd?', 'dxe?', 'dxex?', 's?', 'sSa?', 'abc?', 'D?e'], (0,)),
     ('twins::O2', '_', range(0, 3), (0,), ['1?', '_?', 'n?', '_1?', '12_?'], (0,)),
     ('twins::Q1', ' ', range(0, 4), (0,), ['.?', '..?', '...?', ' ?', '. ?', '.. .?'], (0,)),
-    ('utf8::E2', '', range(0, 4), (0,), ['a?', 'a€?', 'a??', '€?', '😀?', '???', '????'], (0,)),
+    ('utf8::E2', '', range(0, 4), (0,), ['a?', 'a€?', 'a??', '€?', '😀?', '???', '????', '\U00010000?', '\U00040000?', '\U00010000a?', 'a\U0010ffff?', '\u20ada?'], (0,)),
 ]
 
 out = ['harnesses! {']
@@ -101,7 +103,7 @@ def ctx_arr(c):
     return bs, ', '.join('None' if b is None else 'Some(%d)' % b for b in bs)
 TWINS = [  # (A, B, need_utf8, contexts)
     ('twins::P1', 'twins::P1T', True, ['?', '??', '1?', '12?', '1x?', 'a?', 'bc?', 'b?', 'bcd?', 'y1?', 'y12?', 'q?', 'Q?', 'qz?', 'w?', 'w€?', 'we?', 'wew?', 'ad?']),
-    ('twins::P2', 'twins::P2T', False, ['?', '??', 'x?', 'a?', 'ab?', 'abc?', 'b!?', 'a??']),
+    ('twins::P2', 'twins::P2T', False, ['?', '??', 'x?', 'a?', 'ab?', 'abc?', 'b!?', 'a??', 'y?', 'y??', 'y\u00e9?', 'z?', 'z\u00e9?', 'zb?', 'z??']),
     ('twins::O1', 'twins::O1A', False, ['?', '??', 'a?', 'ab?', 'A?', 'Ab?', 'd?', 'dxe?', 'dxex?', 's?', 'sSa?', 'abc?', 'D?e']),
     ('twins::O1', 'twins::O1B', False, ['?', '??', 'a?', 'ab?', 'A?', 'Ab?', 'd?', 'dxe?', 'dxex?', 's?', 'sSa?', 'abc?', 'D?e']),
     ('twins::O2', 'twins::O2A', False, ['?', '??', '???', '1?', '_?', 'n?', '_1?', '12_?']),
@@ -125,6 +127,7 @@ for (a, b, ctxs) in MODES:
             'modes_agree::<%s, %s, %d>([%s], 0)' % (a, b, len(bs), arr), d=sa, kind='modes', n=len(bs), s=0, sym=bs.count(None), ctx=c, other=sb)
 PART = [  # (T, contexts, start)  -- every split point k < N
     ('twins::Q1', ['.?', '..?', '...?', ' .?', '. ?', '??', '???', '.. ?'], 0),
+    ('twins::Q2', ['1?', '10?', '10p?', '7 ?', 'w 10?', '1??', 'x?', 'ax?'], 0),
     ('basic::B1', ['i?', 'if?', 'ifx?', '1?', '1.?', '1.5?', '??', 'a1?'], 0),
     ('basic::B2', ['a?', 'ab?', 'abc?', 'aa?', '??', '???'], 0),
     ('basic::E1', ['ab?', 'abc?', 'abcd?', 'x1?', 'x?y'], 0),
